@@ -27,6 +27,10 @@ CHECKS = {
     text="LoggingCallbackStepState.next is traced and decided as one inductive step from an arbitrary state with symbolic smoothing factor, including a ghost-variable invariant linking the accumulators to the sum of rewards / number of steps since the previous episode end (so histories of any length are covered) and per-environment independence under vmap; the real on-/off-policy collection steps are traced with a LoggingCallback attached over an uninterpreted env/policy to show that the reward and done flag reaching the logger are the environment's reward of the executed action and term-or-trunc; on_iteration's ordered backend callback operands equal the means over environments / the cumulative step sum; rollout_scan (max_steps<=4), rollout_while (unwinding 3 with unwinding obligation) and average_reward (2 episodes) equal a reference interpreter of the evaluation episode, deterministic => key-less policy call.",
     note="evaluation horizons bounded as stated; while-loop episodes of at most 3 steps; backends' own I/O and video recording outside the claim; env/policy arbitrary total functions",
     ref="DESIGN.md §2 C19"),
+ "C12": dict(
+    text="The REAL iteration() of the on-policy (PPO with train replaced by a probe that returns the buffer it receives) and off-policy algorithms with E=2 is traced over an uninterpreted environment/policy; every lane of every output (carried env/policy state, step counts, observations, actions, rewards, dones, log-probs, values, returns, advantages; replay rows and positions) is shown equal (unsat / identical terms) to the single-environment collect_rollout run from (state[e], K_e) for some per-environment key K_e derived from the iteration key (distinct across lanes), and lane 0 is shown invariant under arbitrary changes of lane 1's state (2-safety). Every functional component of the 5 classic-control environments and 2 wrapper stacks traces without converting a traced value to a Python bool (eager = jit primitive sequence) and its vmapped jaxpr is lane-wise equal to the unbatched one (ODE integrator and PRNG samplers stubbed).",
+    note="E=2, S=2, batch 2; env/policy arbitrary total functions; MuJoCo/G1 components under vmap and XLA numerics (jit vs eager rounding) outside the claim",
+    ref="DESIGN.md §2 C12"),
 }
 NOT_YET = {}
 NA = {"C18": "file-system I/O and NumPy serialisation of concrete buffers: nothing symbolic to execute (eqx.tree_serialise_leaves crosses into numpy.save, CrossHair realises every input at that boundary); 'fails loudly' is an exception-path property of equinox. See DESIGN.md §2 C18."}
